@@ -2,6 +2,7 @@ SPECIFICATION Spec
 CONSTANTS
   Rel = "code"
   Budget = 1
+  Foreign = TRUE
 INVARIANTS TypeOK
 PROPERTIES Recovers
 CHECK_DEADLOCK FALSE
